@@ -40,10 +40,11 @@ def build_harness(libdir):
         shutil.rmtree(h2, ignore_errors=True)
         shutil.copytree(h, h2, ignore=shutil.ignore_patterns("target", "Cargo.lock"))
         p = os.path.join(h2, "Cargo.toml")
-        open(p, "w").write(open(p).read().replace('"/repo/', '"' + vf.REPO.rstrip("/") + "/"))
+        t = open(p).read().replace('"/repo/', '"' + vf.REPO.rstrip("/") + "/")
+        open(p, "w").write(t)
         p = os.path.join(h2, "src", "bin", "h_ffi.rs")
-        open(p, "w").write(open(p).read().replace("../../../harness/src/lib.rs",
-                                                  os.path.join(vf.ROOT, "harness", "src", "lib.rs")))
+        t = open(p).read().replace("../../../harness/src/lib.rs", os.path.join(vf.ROOT, "harness", "src", "lib.rs"))
+        open(p, "w").write(t)
         h = h2
     lock = os.path.join(h, "Cargo.lock")
     if not os.path.exists(lock) or os.path.getmtime(lock) < os.path.getmtime(os.path.join(vf.REPO, "Cargo.lock")):
